@@ -28,7 +28,7 @@ package websocket
 
 // PayloadLength decodes the declared length (big-endian, widest first).
 //@ func (Frame).PayloadLength
-//@   prop C15, C16, C06
+//@   prop C07, C15, C16, C06
 //@   arith bv
 //@   requires len(f) >= 2 && len(f) >= 2 + (((f[1] & 127) == 127) ? 8 : (((f[1] & 127) == 126) ? 2 : 0))
 //@   ensures [decoded] result == declLen(f)
